@@ -1,8 +1,10 @@
 package main
 
 import (
+	"fmt"
 	"go/types"
 	"sort"
+	"strings"
 
 	"golang.org/x/tools/go/ssa"
 )
@@ -126,4 +128,247 @@ func containsFunc(t types.Type, d int) bool {
 		}
 	}
 	return false
+}
+
+// ROLE-AGREEMENT: a field whose name carries a direction role (input/output, pre/post, start/end, in/out …) is
+// normally filled from a source of the same role. Cross-role assignments are the few deliberate ones (END consumes the
+// graph's OUTPUT; a successor pass-through takes its predecessor's OUTPUT side as its INPUT side) — each is listed with
+// its reason; any other cross-role assignment is reported.
+type roleAssign struct {
+	fn       *ssa.Function
+	at       ssa.Instruction
+	dst, src string
+	dstRole  string
+	srcRole  string
+	owner    string // struct type declaring the destination field ("" for tables)
+	sameBase bool   // source is a field of the very object written to
+	table    bool
+}
+
+var rolePairs = [][2]string{{"input", "output"}, {"pre", "post"}, {"before", "after"}}
+
+func roleOf(name string) string {
+	// camelCase tokens; the first one that is a role word decides
+	var toks []string
+	cur := ""
+	for i, ch := range name {
+		if i > 0 && ch >= 'A' && ch <= 'Z' && cur != "" {
+			toks = append(toks, strings.ToLower(cur))
+			cur = ""
+		}
+		cur += string(ch)
+	}
+	if cur != "" {
+		toks = append(toks, strings.ToLower(cur))
+	}
+	for _, t := range toks {
+		for _, p := range rolePairs {
+			for i, r := range p {
+				if t == r {
+					return p[i]
+				}
+			}
+		}
+	}
+	return ""
+}
+
+func opposite(a, b string) bool {
+	for _, p := range rolePairs {
+		if (a == p[0] && b == p[1]) || (a == p[1] && b == p[0]) {
+			return true
+		}
+	}
+	return false
+}
+
+func roleAssignments(fns []*ssa.Function) []roleAssign {
+	var out []roleAssign
+	srcName := func(v ssa.Value) string {
+		for d := 0; d < 4; d++ {
+			if f, _ := loadedField(v); f != nil {
+				return f.Name()
+			}
+			switch x := v.(type) {
+			case *ssa.Function:
+				return x.Name()
+			case *ssa.MakeClosure:
+				return x.Fn.Name()
+			case *ssa.Call:
+				return "" // a computed value (e.g. the neighbour's type along an edge: output feeds input by design)
+			case *ssa.MakeInterface:
+				v = x.X
+				continue
+			case *ssa.ChangeType:
+				v = x.X
+				continue
+			case *ssa.Parameter:
+				return x.Name()
+			}
+			return ""
+		}
+		return ""
+	}
+	for _, fn := range fns {
+		for _, fw := range fieldWrites(fn) {
+			if fw.kind != "store" {
+				continue
+			}
+			dr := roleOf(fw.field.Name())
+			if dr == "" {
+				continue
+			}
+			sn := srcName(fw.val)
+			sr := roleOf(sn)
+			if sr == "" {
+				continue
+			}
+			owner := ""
+			if fw.owner != nil {
+				owner = fw.owner.Obj().Name()
+			}
+			same := false
+			if _, sb := loadedField(fw.val); sb != nil && fw.base != nil && (sb == fw.base || valText(sb) == valText(fw.base)) {
+				same = true
+			}
+			out = append(out, roleAssign{fn, fw.in, fw.field.Name(), sn, dr, sr, owner, same, false})
+		}
+		// map updates keyed tables named by role: inputPairs[...] = x.outputStreamConvertPair
+		instrs(fn, func(in ssa.Instruction) {
+			mu, ok := in.(*ssa.MapUpdate)
+			if !ok {
+				return
+			}
+			var mname string
+			switch m := mu.Map.(type) {
+			case *ssa.MakeMap:
+				// a local table: named after the parameter it is passed as
+				for _, ref := range *m.Referrers() {
+					if c, ok := ref.(ssa.CallInstruction); ok {
+						if sc := staticCallee(c); sc != nil {
+							for i, a := range c.Common().Args {
+								if a == ssa.Value(m) && i < len(sc.Params) {
+									mname = sc.Params[i].Name()
+								}
+							}
+						}
+					}
+				}
+			default:
+				if f, _ := loadedField(mu.Map); f != nil {
+					mname = f.Name()
+				}
+			}
+			dr := roleOf(mname)
+			sn := srcName(mu.Value)
+			sr := roleOf(sn)
+			if dr == "" || sr == "" {
+				return
+			}
+			out = append(out, roleAssign{fn, in, mname + "[…]", sn, dr, sr, "", false, true})
+		})
+	}
+	return out
+}
+
+// ruleRoleUniform: within one function, the role-carrying fields of one struct type that share a destination role are
+// all filled from sources of ONE role (all `input*` from `input*`, or — a deliberate derivation — all from `output*`);
+// a lone cross-role assignment is accepted only when it copies a field of the same object (pass-through typing:
+// cr.outputType = cr.inputType) or fills a role-named table (decided by the pair-table rule).
+func ruleRoleUniform(w *World, r *Report, rule string, pkgs ...string) int {
+	ras := roleAssignments(w.RepoFuncs(pkgs...))
+	type key struct {
+		fn    *ssa.Function
+		owner string
+		role  string
+	}
+	groups := map[key][]roleAssign{}
+	var order []key
+	for _, ra := range ras {
+		if ra.table {
+			continue
+		}
+		k := key{ra.fn, ra.owner, ra.dstRole}
+		if _, ok := groups[k]; !ok {
+			order = append(order, k)
+		}
+		groups[k] = append(groups[k], ra)
+	}
+	sort.Slice(order, func(i, j int) bool {
+		a, b := order[i], order[j]
+		if a.fn.String() != b.fn.String() {
+			return a.fn.String() < b.fn.String()
+		}
+		if a.owner != b.owner {
+			return a.owner < b.owner
+		}
+		return a.role < b.role
+	})
+	n := 0
+	for _, k := range order {
+		g := groups[k]
+		n++
+		roles := map[string]int{}
+		for _, ra := range g {
+			roles[ra.srcRole]++
+		}
+		construct := fmt.Sprintf("%s: %s.%s* fields (%d)", w.fname(origin(k.fn)), k.owner, k.role, len(g))
+		if len(roles) > 1 {
+			var odd roleAssign
+			minor := ""
+			for rl, c := range roles {
+				if minor == "" || c < roles[minor] {
+					minor = rl
+				}
+			}
+			for _, ra := range g {
+				if ra.srcRole == minor {
+					odd = ra
+				}
+			}
+			r.Fail(rule, construct, odd.at.Pos(), fmt.Sprintf("the %s-side fields of %s are filled from sources of mixed roles: %s <- %s stands out (its siblings come from the %s side) — one slot of the derived object handles values of the other side's type (wrong zero value / empty stream / converter for one paradigm only)", k.role, k.owner, odd.dst, odd.src, map[bool]string{true: "other", false: "same"}[opposite(odd.dstRole, odd.srcRole)]))
+			continue
+		}
+		cross := false
+		for rl := range roles {
+			cross = opposite(k.role, rl)
+		}
+		bothSides := false // pass-through typing: one source types both sides of one object (x.inputType = S; x.outputType = S)
+		if cross && len(g) == 1 {
+			for _, o := range ras {
+				if o.fn == k.fn && o.owner == k.owner && opposite(o.dstRole, k.role) && o.src == g[0].src && !o.table {
+					// … and only for a node known to be a pass-through at that point (a dominating test against the
+					// pass-through component constant): for such a node input and output are the same thing
+					cPass := constStringOf(w, "compose", "ComponentOfPassthrough")
+					if hasGuard(g[0].at.Block(), func(gd guard) bool {
+						_, x, y, ok := asCmp(gd.cond)
+						if !ok || !gd.pol {
+							return false
+						}
+						for _, v := range []ssa.Value{x, y} {
+							if cs, ok := constString(through(v)); ok && cs == cPass {
+								return true
+							}
+						}
+						return false
+					}) {
+						bothSides = true
+					}
+				}
+			}
+		}
+		if cross && len(g) == 1 && !g[0].sameBase && !bothSides {
+			r.Fail(rule, construct, g[0].at.Pos(), fmt.Sprintf("%s is filled from %s: a lone cross-role assignment that is not a copy within one object", g[0].dst, g[0].src))
+			continue
+		}
+		how := "same role"
+		if cross {
+			how = "uniformly from the opposite role (a deliberate derivation)"
+			if len(g) == 1 {
+				how = "cross-role copy within one object (pass-through typing)"
+			}
+		}
+		r.OK(rule, construct, g[0].at.Pos(), how)
+	}
+	return n
 }
